@@ -7,6 +7,8 @@ src, name = sys.argv[1], sys.argv[2]
 why = sys.argv[3] if len(sys.argv) > 3 else ""
 r = json.load(open(src))
 prop = r["property"]
+if not isinstance(r.get("replay"), dict) or "broken" in r["replay"]:
+    sys.exit("this replay names a broken obligation / correspondence, it holds no failing input: nothing to promote")
 d = os.path.join(VERIF, "corpus", prop)
 os.makedirs(d, exist_ok=True)
 entry = dict(property=prop, origin=why or r.get("what", "")[:300], replay=r["replay"])
